@@ -335,6 +335,8 @@ def run_core(ch, env, prop):
     combos = FITS_COMBOS if c14 else COMBOS
     fmt, mode = combos[ch.draw(len(combos), kind="combo")]
     start = 1 + ch.draw(3, p0=0.45, kind="start")
+    if ch.draw(10, kind="single_tile_pyramid") == 9:
+        start = 0       # the whole data set is one tile: nothing to merge, but the range still has to reach the image set
     workers = (2, 1, 3, 5)[ch.draw(4, kind="workers")]
     p_pop = (0.5, 0.2, 0.9, 1.0)[ch.draw(4, kind="p_populated")]
     seed = ch.draw(1 << 16, kind="content_seed")
@@ -516,7 +518,7 @@ def run_core(ch, env, prop):
     for p, a in leaves.items():
         fin = a[np.isfinite(a)] if a.dtype.kind == "f" else a.ravel()
         leafrange[p] = (fin.min(), fin.max())
-    for p in sorted(above, key=lambda p: (-p.n, p.y, p.x)):
+    for p in sorted(on_disk, key=lambda p: (-p.n, p.y, p.x)):        # leaves too: "every tile"
         s = start - p.n
         mins = [r[0] for q, r in leafrange.items() if (q.x >> s) == p.x and (q.y >> s) == p.y]
         maxs = [r[1] for q, r in leafrange.items() if (q.x >> s) == p.x and (q.y >> s) == p.y]
@@ -533,7 +535,7 @@ def run_core(ch, env, prop):
             res["violation"] = viol(prop, "wrong-range", "%s: tile %s records DATAMIN/DATAMAX %r but the leaf tiles beneath it span %r" % (
                 what, tuple(p), got, (float(want[0]), float(want[1]))))
             return res
-    if via_builder and Pos(0, 0, 0) in above:
+    if via_builder and Pos(0, 0, 0) in on_disk:
         b = builder_box["b"]
         s = start
         want = (min(r[0] for r in leafrange.values()), max(r[1] for r in leafrange.values()))
